@@ -82,12 +82,17 @@ const (
 func genTimeFor(rng *rand.Rand, schema string, exact bool) time.Time {
 	switch {
 	case strings.Contains(schema, "date"):
-		day := int64(rng.Intn(200000) - 100000)
-		switch rng.Intn(6) {
+		// the whole range of years 0001..9999 (days -719162 .. 2932896), not only what fits a time.Duration
+		day := int64(rng.Intn(2932896+719162+1) - 719162)
+		switch rng.Intn(8) {
 		case 0:
 			day = int64(rng.Intn(5) - 2)
 		case 1:
 			day = -1
+		case 2:
+			day = []int64{-719162, 2932896, 106751, 106752, -106751, -106752, 2932895}[rng.Intn(7)]
+		case 3:
+			day = int64(rng.Intn(200000) - 100000)
 		}
 		t := time.Unix(day*86400, 0).UTC()
 		if !exact {
